@@ -26,7 +26,7 @@ def run(ctx):
     refcfg = None
     if q:
         z = random.Random(ctx.seed).choice(COMPRESSIONS)
-        vers = [["HTTP_VERSION_1", "HTTP_VERSION_2"], ["HTTP_VERSION_2", "HTTP_VERSION_3"], ["HTTP_VERSION_1", "HTTP_VERSION_3"]][ctx.seed % 3]
+        vers = [["HTTP_VERSION_1", "HTTP_VERSION_2"], ["HTTP_VERSION_2", "HTTP_VERSION_3"]][ctx.seed % 2]  # gRPC needs HTTP/2
         refcfg = ("features:\n  versions: [%s]\n" % ", ".join(vers) +
                   "  protocols: [PROTOCOL_CONNECT, PROTOCOL_GRPC, PROTOCOL_GRPC_WEB]\n  codecs: [CODEC_PROTO, CODEC_JSON]\n"
                   "  compressions: [COMPRESSION_IDENTITY, %s]\n  supportsTlsClientCerts: true\n  supportsHalfDuplexBidiOverHttp1: true\n" % z)
